@@ -52,7 +52,7 @@ theorem step_done_refines (env : Env) (nt : Ctx → Ctx × Outcome Tok) (start :
         simp [absStack, hst, hres]
 
 theorem liftTok_stop_not_ok {hist : List Tok} {stack : List StackItem} {res : List Tree}
-    {slice : Option Slice} {r : Ctx × Outcome Tok} {k : Option (Option Slice)} {ctx : Ctx}
+    {slice : Option Slice} {r : Ctx × Outcome Tok} {k : Option (Option Slice × Nat)} {ctx : Ctx}
     {o : Outcome ParseResult} (h : liftTok hist stack res slice r k = .stop ctx o) :
     ∀ pr, o ≠ .ok pr := by
   unfold liftTok at h
